@@ -310,6 +310,23 @@ def replay(pid, path):
             return 1
         print("replay of %s: property %s holds on the current tree" % (path, pid))
         return 0
+    if eng in ("kasync", "kthread", "kids"):
+        from .main import Result
+        res = Result()
+        if eng == "kids":
+            engine_kvalue.run_ids(pid, "quick", 0, res, only=[rp["prog"]])
+        elif eng == "kasync":
+            engine_kthread.run_async(pid, "quick", data.get("seed", 0), res, only=[rp] if "prog" in rp else None)
+        else:
+            engine_kthread.run_threads(pid, "quick", data.get("seed", 0), res, only=[rp["case"]] if "case" in rp else None)
+        bad = [h for h in res.hits if h["prop"] == pid and ("variant" not in rp or (h.get("replay") or {}).get("variant") == rp.get("variant"))]
+        if bad:
+            print("VIOLATION property=%s replay=%s" % (pid, path))
+            for b in bad[:5]:
+                print("  " + b["desc"][:300])
+            return 1
+        print("replay of %s: property %s holds on the current tree" % (path, pid))
+        return 0
     if eng == "scenario":
         from .main import Result
         res = Result()
